@@ -92,6 +92,15 @@ class SBool(Sym):
     def __ne__(self, o):
         return SBool(self.t != tobool(o))
 
+    def asint(self):
+        return SInt(z3.If(self.t, z3.IntVal(1), z3.IntVal(0)))
+
+    def __add__(self, o):
+        return self.asint() + (o.asint() if isinstance(o, SBool) else o)
+
+    def __radd__(self, o):
+        return (o.asint() if isinstance(o, SBool) else o) + self.asint()
+
     def __repr__(self):
         return f'SBool({self.t})'
 
